@@ -40,6 +40,7 @@ partial def parseNode (j : Json) : Except String PNode := do
   let kind ← match k with
     | "internal" => pure Kind.internal
     | "intro" => pure Kind.intro
+    | "introopt" => pure Kind.introOpt
     | "inline" => do
         let imps ← parseReqs (← j.getObjVal? "imports")
         let hd ← j.getObjValAs? Bool "hd"
